@@ -56,7 +56,7 @@ class C05(Property):
     translators = []
     rule = ("random well-formed DAG workflows (sfv.rt.wfgen; transformers with 1..3 inputs / 1..2 outputs, scatter, gather with known and "
             "unknown size and depth 2, dot products incl. parent-tag broadcast, cartesian products, conditional steps dropping or "
-            "defaulting, job pipelines) run on the real StreamFlowExecutor under the default asyncio order and 3 (quick) / 10 (thorough) "
+            "defaulting, job pipelines) run on the real StreamFlowExecutor under the default asyncio order and 3 (quick) / 8 (thorough) "
             "PRNG interleavings each (job completion order included). Every run's per-port {tag: value} map read from token_list must "
             "equal the Lean denotation `den` of the workflow (driver), whose executable well-formedness hypotheses (wfStruct, wfDyn) must "
             "hold; all runs of a workflow must agree with each other (oracle). Non-trivial = workflow with >= 3 nodes and >= 5 data "
@@ -85,7 +85,7 @@ class C05(Property):
     min_nontrivial = 10
 
     def _plan(self, ctx: Ctx):
-        n, k = (600, 10) if ctx.tier == "thorough" else (45, 3)
+        n, k = (120, 8) if ctx.tier == "thorough" else (45, 3)
         if ctx.mode == "search":
             n, k = n, 16
         return n, k
